@@ -187,7 +187,7 @@ let spec_set (prog : stmt list) : int list list =
   enumerate (user_vars prog) (fun a -> List.for_all (fun c -> holds c a) cs)
 let impl_set (prog : stmt list) : int list list =
   let cs = List.map stored (posted prog) in
-  enumerate (user_vars prog) (fun a -> List.for_all (fun c -> exec_cons c a) cs)
+  enumerate (user_vars prog) (fun a -> List.for_all (fun c -> impl_cons c a) cs)
 
 (* D4 (C05, Modulo CASE 2 forces the remainder's sign from the divisor): can only matter when the
    dividend or the divisor of some Modulo can be negative *)
@@ -215,15 +215,14 @@ let known_class (prog : stmt list) : string =
   if lowered = LPanic then "BAD:empty_domain_panic "
   else if (match lowered with LOk (s, ps) -> validate s ps = Some EInvalidDomain && aux_oversize s | LPanic -> false) then "BAD:oversize_domain "
   else if List.exists (fun c -> kf_or_not (fold_cons c)) cs then "BAD:or_not "
-  else if List.exists kf_nested_ne cs then "BAD:nested_ne "
   else if (match lowered with LOk (s, ps) -> validate s ps = Some EInvalidConstraint | LPanic -> false) then "BAD:mod_rejected "
   else if low_has (function PLinEq (c, x, _) | PLinLe (c, x, _) -> all_zero c x | _ -> false) then "BAD:lin_zero_coeffs "
   else if (match lowered with LOk (s, ps) -> List.exists (mod_sign_risk s) ps | LPanic -> false) then "BAD:modulo_prop "
   else ""
 
 (* the model part is withheld (`-`) when the prediction is not meant to be exact: a panic, or a
-   propagator whose pruning function is known not to enforce its `sat` other than NotEquals
-   (all-zero IntLinEq/IntLinLe, D11) *)
+   propagator whose pruning function is known not to enforce its `sat` (all-zero
+   IntLinEq/IntLinLe, D11) *)
 let model_part (prog : stmt list) : string =
   match lower (build prog) with
   | LPanic -> "PANIC"
